@@ -193,6 +193,10 @@ def c08(tier, seed):
     gs.append(grp('spellings', 'VH_spell', jobs, merge=M, whole_table=True, cost=40,
                   bound='X over all listed ids, both spellings valid; Y over all listed ids with/without +, with/without exception; contexts bare, (..), .. AND MIT, (MIT AND ..), MIT OR ..',
                   symbolic='ids X and Y (choice variables over the whole lists)', asserts=['same-validity', 'spellings-interchangeable']))
+    cj = [[pair, op, e1, py] for pair in ('plus', 'only') for op in ('AND', 'OR') for py in '01']
+    gs.append(grp('spellings-in-compound', 'VH_spellCtx', cj, merge=MS, cost=20, whole_table=True,
+                  bound='"S op X WITH e" against [Y, Y WITH e], X and Y over all listed ids, op AND / OR, Y with and without +',
+                  symbolic='ids X and Y (choice variables over the whole lists)', asserts=['same-validity', 'spellings-interchangeable']))
     gs.append(grp('both-valid', 'VH_bothValid', [['plus'], ['only']], merge=M, whole_table=True, cost=5,
                   bound='every active id', symbolic='id (choice variable)', asserts=['both-spellings-valid']))
     return gs
